@@ -3,6 +3,7 @@ import Driver.Core
 import Driver.C15
 import Driver.C12
 import Driver.C17
+import Driver.C14
 import Driver.C18
 /-
 replicon_driver: reads the harness stream on stdin, runs the Lean model in lock step,
@@ -47,6 +48,8 @@ def dispatch (inp : String) (obs : List String) : Outcome :=
   | some "c15dec" => C15.handleDec ts obs
   | some "c15rt" => C15.handleRt ts obs
   | some "c17" => C17.handle ts obs
+  | some "c14pair" => C14.handlePair ts obs
+  | some "c14hs" => C14.handleHs ts obs
   | some "c18" => C18.handle ts obs
   | some "c12cmp" => C12.handleCmp ts obs
   | some "c12ch" => C12.handleCh ts obs
